@@ -17,10 +17,14 @@ pub struct Opts {
 }
 
 const ALPHA: &[char] = &['a', 'b', 'c', 'A', 'B', ' ', '/', '-', '\u{e9}', '\u{c9}', '1'];
+const WORD_EXTRA: &[char] = &['\n', '\r'];
 
 fn gen_word(rng: &mut Rng, max: usize) -> String {
     let len = rng.range(1, max);
-    let w: String = (0..len).map(|_| *rng.pick(ALPHA)).filter(|c| *c != ' ').collect();
+    let mut w: String = (0..len).map(|_| *rng.pick(ALPHA)).filter(|c| *c != ' ').collect();
+    if rng.chance(1, 12) {
+        w.push(*rng.pick(WORD_EXTRA));
+    }
     if w.is_empty() {
         "a".to_owned()
     } else {
@@ -30,7 +34,29 @@ fn gen_word(rng: &mut Rng, max: usize) -> String {
 
 fn gen_hay(rng: &mut Rng) -> String {
     let len = rng.range(0, 14);
-    (0..len).map(|_| *rng.pick(ALPHA)).collect()
+    let mut s: String = (0..len).map(|_| *rng.pick(ALPHA)).collect();
+    // line breaks: CR LF is one grapheme (held as code points even if the text is ASCII)
+    if rng.chance(1, 8) {
+        let ascii_only: String = s.chars().filter(|c| c.is_ascii()).collect();
+        if rng.coin() {
+            s = ascii_only;
+        }
+        let brk = *rng.pick(&["\r\n", "\r\n", "\n", "\r", "\n\r"]);
+        let mut pos = rng.below(s.chars().count() + 1);
+        let mut out = String::new();
+        for c in s.chars() {
+            if pos == 0 {
+                out.push_str(brk);
+            }
+            pos = pos.wrapping_sub(1);
+            out.push(c);
+        }
+        if pos == 0 {
+            out.push_str(brk);
+        }
+        s = out;
+    }
+    s
 }
 
 fn gen_atom(rng: &mut Rng) -> Atom {
